@@ -273,6 +273,8 @@ MUTANTS = [
     ("defvjp-single-rule-dispatcher-ignores-argnums", {"C17": "A13.align", "C03": "A13.align"}, [(CO, "    def vjp_argnums(argnums, ans, args, kwargs):\n        L = len(argnums)", "    if len(vjps_dict) == 1:\n        (vjpfun,) = vjps_dict.values()\n\n        def unary_vjp_argnums(argnums, ans, args, kwargs):\n            if len(argnums) != 1:\n                raise NotImplementedError(\"VJP wrt argnums {} not defined\".format(argnums))\n            vjp = vjpfun(ans, *args, **kwargs)\n            return lambda g: (vjp(g),)\n\n        defvjp_argnums(fun, unary_vjp_argnums)\n        return\n\n    def vjp_argnums(argnums, ans, args, kwargs):\n        L = len(argnums)")]),
     ("solve-gradient-not-reduced-to-its-argument", {"C05": "A3.vjp", "C01": "A3.vjp"}, [(LA, "        return lambda g: unbroadcast(match_complex(b, solve(T(a), g)), anp.metadata(b))", "        return lambda g: match_complex(b, solve(T(a), g))")]),
     ("solve-gradient-reduced-to-the-other-argument", {"C05": "A3.vjp"}, [(LA, "        return lambda g: unbroadcast(match_complex(b, solve(T(a), g)), anp.metadata(b))", "        return lambda g: unbroadcast(match_complex(b, solve(T(a), g)), anp.metadata(a))")]),
+    ("linspace-gradient-not-reduced-to-its-endpoint", {"C05": "A3.vjp", "C01": "A3.vjp"}, [(NV, "    lambda ans, start, stop, num: unbroadcast_f(\n        stop, lambda g: anp.tensordot(anp.linspace(0.0, 1.0, num), g, 1)\n    ),", "    lambda ans, start, stop, num: lambda g: anp.tensordot(anp.linspace(0.0, 1.0, num), g, 1),")]),
+    ("linspace-tangent-against-a-scalar-zero", {"C02": "A3.jvp"}, [(NJ, "    lambda g, ans, start, stop, *args, **kwargs: anp.linspace(\n        g, anp.zeros(anp.shape(stop)), *args, **kwargs\n    ),", "    lambda g, ans, start, stop, *args, **kwargs: anp.linspace(g, 0.0, *args, **kwargs),")]),
 ]
 
 BENIGN = [
@@ -361,6 +363,7 @@ BENIGN = [
     ("find-top-three-way-split", [(TR, "        if isbox(arg):\n            trace = arg._trace\n            if trace > top_trace:\n                top_boxes = [(argnum, arg)]\n                top_trace = trace\n                top_node_type = type(arg._node)\n            elif trace == top_trace:\n                top_boxes.append((argnum, arg))", "        if isbox(arg):\n            trace = arg._trace\n            if trace < top_trace:\n                continue\n            if trace == top_trace:\n                top_boxes.append((argnum, arg))\n            else:\n                top_boxes = [(argnum, arg)]\n                top_trace = trace\n                top_node_type = type(arg._node)")]),
     ("sum-jvp-options-merged-into-one-dict", [(NJ, "    return anp.sum(g, axis=axis, dtype=dtype, keepdims=keepdims, **kwargs)", "    options = dict(kwargs, axis=axis, dtype=dtype, keepdims=keepdims)\n    return anp.sum(g, **options)")]),
     ("solve-gradient-unbroadcast-via-local-metadata", [(LA, "    vector_rhs = anp.ndim(ans) == anp.ndim(a) - 1\n", "    vector_rhs = anp.ndim(ans) == anp.ndim(a) - 1\n    a_meta, b_meta = anp.metadata(a), anp.metadata(b)\n"), (LA, "        return lambda g: unbroadcast(match_complex(b, solve(T(a), g)), anp.metadata(b))", "        return lambda g: unbroadcast(match_complex(b, solve(T(a), g)), b_meta)")]),
+    ("linspace-tangent-against-zeros-like-the-other-endpoint", [(NJ, "    lambda g, ans, start, stop, *args, **kwargs: anp.linspace(\n        g, anp.zeros(anp.shape(stop)), *args, **kwargs\n    ),", "    lambda g, ans, start, stop, *args, **kwargs: anp.linspace(g, anp.zeros_like(stop), *args, **kwargs),")]),
 ]
 
 
